@@ -84,13 +84,19 @@ def point(**dev):
     return tuple(c)
 
 
-# two corners of the lattice added to the k<=1 set for the packaged (eye-based) routines: the largest and the
-# smallest received voltages the axes allow (the estimators must not depend on the unit of the signal)
+# points beyond k<=1 added to the configuration set of the packaged (eye-based) routines in both tiers:
+#  - the largest and the smallest received voltages the axes allow (the estimators must not depend on the unit of the signal)
+#  - a dispersive channel combined with the finest time grid / the widest receiver bandwidth (least smoothing of the
+#    dispersive overshoot, narrowest transition regions in the eye)
 CORNERS = [
-    point(launch=10.0, RL=1000.0),                                   # ~10 V on-level
+    point(launch=10.0, RL=1000.0),                                        # ~10 V on-level
     point(launch=10.0, RL=1000.0, ER=40.0, bwf=2.0),
     point(launch=-20.0, loss=3.0, r=0.5, layout='2pol', chan='fiber+'),   # ~6 uV on-level, next to the 0.5 uV dark offset
+    point(sps=33, chan='dm+'),
+    point(sps=64, chan='fiber-'),
+    point(bwf=2.0, chan='dm-'),
 ]
+K2_CORNERS = {point(launch=10.0, RL=1000.0), point(sps=33, chan='dm+'), point(sps=64, chan='fiber-'), point(bwf=2.0, chan='dm-')}
 
 
 def ndev(cfg):
@@ -396,7 +402,7 @@ def run(ctx):
     # --- part 3: ook.DSP
     seeds = (0, 1) if quick else (0, 1, 2)
     ook_words = [prbs7(32), seeded(32, seed, 32), prbs7(64), seeded(64, seed, 64), prbs7(127), seeded(127, seed, 127)]
-    ook_cfgs = (lat1 if quick else lattice(2)) + CORNERS[1:] + ([CORNERS[0]] if quick else [])
+    ook_cfgs = (lat1 + CORNERS) if quick else (lattice(2) + [c for c in CORNERS if c not in K2_CORNERS])
     ctx.space('config.dsp', len(ook_cfgs))
     cases = [(c, w, s) for c in ook_cfgs for w in ook_words for s in seeds]
     ctx.pmap('ook.dsp', ook_case, cases, horizon=120)
@@ -404,7 +410,8 @@ def run(ctx):
 
     # --- part 4: ppm.DSP
     cases = []
-    for c in lat1 + CORNERS:
+    ppm_cfgs = ook_cfgs
+    for c in ppm_cfgs:
         for M in (2, 4, 8, 16):
             for which in ('ramp', 'prbs', 'seeded'):
                 for s in seeds:
